@@ -848,9 +848,14 @@ int yr_object_dict_set_item(YR_OBJECT* object, YR_OBJECT* item, const char* key)
     dict->items->free = dict->items->used;
   }
 
+  SIZED_STRING* key_copy = ss_new(key);
+
+  if (key_copy == NULL)
+    return ERROR_INSUFFICIENT_MEMORY;
+
   item->parent = object;
 
-  dict->items->objects[dict->items->used].key = ss_new(key);
+  dict->items->objects[dict->items->used].key = key_copy;
   dict->items->objects[dict->items->used].obj = item;
 
   dict->items->used++;
